@@ -14,8 +14,21 @@ enum Step {
     Deliver(usize),
     Interrupted,
     Eof,
-    Hard,
+    Hard(u8),
 }
+
+fn hard_kind(h: u8) -> ErrorKind {
+    // every kind but Interrupted is a hard error for read_n ("stops at the first non-interrupt error")
+    match h % 6 {
+        0 => ErrorKind::Other,
+        1 => ErrorKind::WouldBlock,
+        2 => ErrorKind::TimedOut,
+        3 => ErrorKind::BrokenPipe,
+        4 => ErrorKind::UnexpectedEof,
+        _ => ErrorKind::ConnectionReset,
+    }
+}
+
 
 struct Script {
     steps: [Step; S],
@@ -65,10 +78,10 @@ impl Read for Script {
                 self.last_err = None;
                 Ok(0)
             }
-            Step::Hard => {
+            Step::Hard(h) => {
                 self.finished = true;
-                self.last_err = Some(ErrorKind::Other);
-                Err(ErrorKind::Other.into())
+                self.last_err = Some(hard_kind(h));
+                Err(hard_kind(h).into())
             }
         }
     }
@@ -84,7 +97,7 @@ fn any_step() -> Step {
         }
         1 => Step::Interrupted,
         2 => Step::Eof,
-        _ => Step::Hard,
+        _ => Step::Hard(kani::any()),
     }
 }
 
@@ -144,7 +157,7 @@ fn c17_read_n_impl_scripts() {
     kani::cover!(r.is_err() && script.pos == attempts && attempts > 1);
     kani::cover!(r.is_err() && script.pos < attempts);
     kani::cover!(r.is_ok() && script.delivered == 0 && script.eof_seen);
-    kani::cover!(r.is_ok() && script.delivered > 0 && script.last_err == Some(ErrorKind::Other));
+    kani::cover!(r.is_ok() && script.delivered > 0 && matches!(script.last_err, Some(k) if k != ErrorKind::Interrupted));
 }
 
 /// count == 0: an empty slice, without reading (this path allocates nothing).
@@ -152,7 +165,7 @@ fn c17_read_n_impl_scripts() {
 #[kani::unwind(@@U@@)]
 fn c17_read_n_zero_count() {
     let mut script = Script {
-        steps: [Step::Hard; S],
+        steps: [Step::Hard(0); S],
         data: kani::any(),
         pos: 0,
         delivered: 0,
